@@ -33,7 +33,7 @@ func ulpOf(v float64, f32 bool) float64 {
 }
 
 // c09Point judges value v (already widened to float64) for source amplitude a of depth bs.
-func c09Point(bs int, f32 bool, a int64, v float64) (kind, msg string) {
+func c09Point(bs int, f32 bool, a int64, v float64, signedSrc bool) (kind, msg string) {
 	if math.IsNaN(v) || v < -1 || v > 1 {
 		return "range", fmt.Sprintf("amplitude %d gives %v, outside [-1,1]", a, v)
 	}
@@ -55,6 +55,12 @@ func c09Point(bs int, f32 bool, a int64, v float64) (kind, msg string) {
 		eps = math.Ldexp(1, -23)
 	}
 	tol := math.Ldexp(1, -(bs-1)) + 5*eps
+	if signedSrc {
+		// a signed code is its own amplitude: no offset is subtracted, so the float rounding of the
+		// conversion and of the division is relative to the result, not to full scale (quiet samples of a
+		// deep format must not vanish in a shallow float)
+		tol = math.Ldexp(1, -(bs-1)) + 5*eps*math.Abs(float64(a))/math.Ldexp(1, bs-1)
+	}
 	ok := false
 	if bs <= 32 {
 		for _, fsv := range []float64{math.Ldexp(1, bs-1), math.Ldexp(1, bs-1) - 1} {
@@ -101,7 +107,7 @@ func c09EvalCase(cs c09Case) (fs []F) {
 	for i, a := range cs.Amps {
 		v := math.Float64frombits(out[i])
 		vs = append(vs, v)
-		if kind, msg := c09Point(ts.Bits, f32, a, v); kind != "" {
+		if kind, msg := c09Point(ts.Bits, f32, a, v, ts.Kind == dyn.Signed); kind != "" {
 			fs = append(fs, mk(kind, a, msg))
 		}
 	}
@@ -233,7 +239,7 @@ func c09Run(c *core.Ctx) {
 				if k == math.MaxInt64 {
 					v = math.NaN()
 				}
-				if kind, _ := c09Point(ts.Bits, f32, a, v); kind != "" && nfail.ok(kind) {
+				if kind, _ := c09Point(ts.Bits, f32, a, v, ts.Kind == dyn.Signed); kind != "" && nfail.ok(kind) {
 					report(p, kind, a)
 				}
 			}
@@ -283,7 +289,7 @@ func c09Run(c *core.Ctx) {
 	c.Set("distinct_nontrivial", distinct.Load())
 	c09Judge := func(s, d int, in, out uint64) (string, string) {
 		ts := dyn.Types[s]
-		return c09Point(ts.Bits, isF32(d), rawToAmp(ts.Kind, ts.Bits, in), math.Float64frombits(out))
+		return c09Point(ts.Bits, isF32(d), rawToAmp(ts.Kind, ts.Bits, in), math.Float64frombits(out), ts.Kind == dyn.Signed)
 	}
 	wait := c.ReverseOrderPassAsync("mc-shim") // a process of its own, meanwhile
 	ctxPasses(c, "C09", c09Judge, false, fixedToFloat)
@@ -294,7 +300,7 @@ func c09Run(c *core.Ctx) {
 	c.Set("instantiations_with_exhaustive_source_domain", exh)
 	c.Set("exhaustive", exh == inst)
 	c.Set("rule", "22 instantiations through the real conversion on real buffers with 1, 2 and 3 channels in blocks (destination pre-filled with garbage), amplitudes ascending (order / strict order is a streaming check); 8/16-bit sources: every value; 32-bit: quick = boundary alphabet + 70000 values at each end and around zero, thorough = every value; 64-bit: boundary alphabet + the same edge runs; non-exhaustive domains additionally an arithmetic lattice of 2^18 (thorough 2^24) values with an odd step across the whole range; the round trip composes with the real FloatAsSigned/FloatAsUnsigned; distinct_nontrivial = source values (distinct by construction), each judged for range, reference levels, accuracy, order and round trip")
-	c.Assume("64-bit sources are covered by a finite alphabet only", "accuracy tolerance: one source step + 5 eps of the destination float type relative to full scale 1.0 (float rounding of code, offset subtraction and division)", "linux/amd64")
+	c.Assume("64-bit sources are covered by a finite alphabet only", "accuracy tolerance: one source step + 5 eps of the destination float type, relative to full scale 1.0 for unsigned sources (float rounding of code, offset subtraction and division) and relative to the result for signed sources (no offset is subtracted)", "linux/amd64")
 }
 
 func init() {
@@ -306,7 +312,7 @@ func init() {
 			if isCtxCase(raw) {
 				return ctxReplay(c, raw, func(s, d int, in, out uint64) (string, string) {
 					ts := dyn.Types[s]
-					return c09Point(ts.Bits, isF32(d), rawToAmp(ts.Kind, ts.Bits, in), math.Float64frombits(out))
+					return c09Point(ts.Bits, isF32(d), rawToAmp(ts.Kind, ts.Bits, in), math.Float64frombits(out), ts.Kind == dyn.Signed)
 				}, false)
 			}
 			return c09EvalCase(decode[c09Case](raw))
